@@ -33,6 +33,7 @@ _k = st.integers(0, 23)
 _rid_new = st.one_of(*([st.integers(0, N_RID - 1)] * 5), st.integers(N_RID, N_RID + 2))
 _mid_new = st.one_of(*([st.integers(0, N_MID - 1)] * 7), st.just(N_MID))
 _coef = st.sampled_from([-3, -2, -1, -1, 1, 1, 2, 3, 0.5, -1.5])
+_coef0 = st.sampled_from([-3, -2, -1, -1, 1, 1, 2, 3, 0.5, -1.5, 0, 0.0])  # "If the final coefficient is 0 the metabolite is removed"
 _bnd = specs.bounds("general")
 _trees = gprtree.opt_trees(GID[:6], max_fan=3)
 
@@ -71,7 +72,7 @@ OPS: Dict[str, Any] = {
                              via=st.sampled_from(["model", "model", "met"])),
     "add_boundary": _d("add_boundary", met=_k, type=st.sampled_from(["exchange", "demand", "sink", "custom"]),
                        rid=st.one_of(st.none(), _rid_new), b=st.one_of(st.none(), _bnd)),
-    "rxn_add_mets": _d("rxn_add_mets", rxn=_k, mets=st.lists(st.tuples(st.integers(0, N_MID - 1), _coef, st.sampled_from(["obj", "obj", "id", "copy"])),
+    "rxn_add_mets": _d("rxn_add_mets", rxn=_k, mets=st.lists(st.tuples(st.integers(0, N_MID - 1), _coef0, st.sampled_from(["obj", "obj", "id", "copy"])),
                                                                 min_size=1, max_size=3, unique_by=lambda t: t[0]),
                        combine=st.booleans(), subtract=st.booleans()),
     "bounds": _d("bounds", rxn=_k, kind=st.sampled_from(["lb", "ub", "both", "both", "knock_out"]), b=_bnd,
@@ -83,7 +84,7 @@ OPS: Dict[str, Any] = {
     "rename_genes": _d("rename_genes", pairs=st.lists(st.tuples(_k, st.integers(0, N_GID - 1)), min_size=1, max_size=3, unique_by=lambda t: t[0])),
     "rename_rxn": _d("rename_rxn", rxn=_k, new=_rid_new),
     "rename_met": _d("rename_met", met=_k, new=_mid_new),
-    "objective": _d("objective", kind=st.sampled_from(["rxn", "id", "index", "dict", "list", "coef", "coef"]), rxns=st.lists(_k, min_size=1, max_size=3),
+    "objective": _d("objective", kind=st.sampled_from(["rxn", "id", "index", "dict", "list", "coef", "coef", "obj_same_min", "obj_same_max", "obj_new_min", "obj_new_max"]), rxns=st.lists(_k, min_size=1, max_size=3),
                     coefs=st.lists(st.sampled_from([1, 1, -1, 2, 0.5, 0]), min_size=3, max_size=3)),
     "direction": _d("direction", value=st.sampled_from(["max", "min", "min", "maximize", "MIN", "bogus"])),
     "imul": _d("imul", rxn=_k, factor=st.sampled_from([2, 0.5, -1, -2, 3, 1.5])),
@@ -103,7 +104,7 @@ OPS: Dict[str, Any] = {
                     members=st.lists(st.tuples(st.sampled_from(["r", "m", "g"]), _k), max_size=3)),
     "remove_group": _d("remove_group", grp=_k, by=st.sampled_from(["obj", "obj", "single"])),
     "group_members": _d("group_members", grp=_k, add=st.booleans(), members=st.lists(st.tuples(st.sampled_from(["r", "m", "g"]), _k), min_size=1, max_size=2)),
-    "from_string": _d("from_string", rxn=_k, lhs=st.lists(st.tuples(st.integers(0, N_MID - 1), st.sampled_from([1, 1, 2, 0.5])), max_size=2, unique_by=lambda t: t[0]),
+    "from_string": _d("from_string", rxn=_k, lhs=st.lists(st.tuples(st.integers(0, N_MID - 1), st.sampled_from([1, 1, 2, 0.5, 0])), max_size=2, unique_by=lambda t: t[0]),
                       rhs=st.lists(st.tuples(st.integers(0, N_MID - 1), st.sampled_from([1, 1, 3])), max_size=2, unique_by=lambda t: t[0]),
                       arrow=st.sampled_from(["-->", "<=>", "<--", "->", "<->"])),
     "inplace_meta": _d("inplace_meta", kind=st.sampled_from(["r", "m", "g", "model", "grp"]), sel=_k, what=st.sampled_from(["notes", "annotation", "name", "compartments", "ann_list", "ann_list"]),
@@ -222,18 +223,6 @@ class World:
             return True
         return False
 
-    def _usercon_blocks(self, rxns) -> bool:
-        """Known finding usercon-lost: removing (inside a context) a reaction that a user constraint refers to
-        loses that coefficient for good; such removals are not generated while the finding is listed."""
-        if "usercon-lost" not in self.known or not self.depth():
-            return False
-        refd = {id(r) for _, _, terms in self.user["cons"].values() for r, _ in terms}
-        # helper content (fix_objective_as_constraint, add_pfba, ...) may refer to any reaction
-        if (self.user["opaque"] and rxns) or any(id(r) in refd for r in rxns):
-            self._count_excluded("usercon-lost")
-            return True
-        return False
-
     # -- selection helpers -------------------------------------------------------------------
     @staticmethod
     def pick(dl, k):
@@ -321,8 +310,6 @@ class World:
             r = self.pick(m.reactions, k)
             as_id = op["by"] == "id" or (op["by"] == "mixed" and i % 2)
             picked.append(r.id if as_id else r)
-        if self._usercon_blocks([self.pick(m.reactions, k) for k in op["sels"]]):
-            return "skipped:known-usercon-lost"
         if self._exact_copy_blocks():
             return "skipped:known-glpk-exact-copy-vartype"
         objs = [self.pick(m.reactions, k) for k in op["sels"]]
@@ -376,8 +363,6 @@ class World:
         if not len(m.metabolites):
             return "skipped:empty"
         picked = list(dict.fromkeys(self.pick(m.metabolites, k) for k in op["sels"]))
-        if op["destructive"] and self._usercon_blocks([r for x in picked for r in x.reactions]):
-            return "skipped:known-usercon-lost"
         if self._exact_copy_blocks():
             return "skipped:known-glpk-exact-copy-vartype"
         if op["via"] == "met":
@@ -475,8 +460,6 @@ class World:
         if not len(m.genes):
             return "skipped:empty"
         genes = list(dict.fromkeys(self.pick(m.genes, k) for k in op["genes"]))
-        if op["remove_reactions"] and self._usercon_blocks([r for g in genes for r in g.reactions]):
-            return "skipped:known-usercon-lost"
         if op["remove_reactions"] and self._exact_copy_blocks():
             return "skipped:known-glpk-exact-copy-vartype"
         remove_genes(m, genes if op["by"] == "obj" else [g.id for g in genes], remove_reactions=op["remove_reactions"])
@@ -522,6 +505,13 @@ class World:
             m.objective = [r.id if i % 2 else r for i, r in enumerate(rx)]
         elif kind == "dict":
             m.objective = {r: c for r, c in zip(rx, op["coefs"])}
+        elif kind.startswith("obj_"):
+            # an optlang Objective carries its own direction; "same": the current expression with a (possibly) other direction
+            if kind.startswith("obj_same"):
+                expr = m.objective.expression
+            else:
+                expr = sum(c * r.flux_expression for r, c in zip(rx, op["coefs"]))
+            m.objective = m.problem.Objective(expr, direction=kind[-3:])
         else:
             rx[0].objective_coefficient = op["coefs"][0]
 
